@@ -8,6 +8,7 @@ are oracle parameters (lgr, lgf : rat -> Z; lgrs, lgfs for the logarithm of sqrt
 them -- the epsilon test, the max_value clamp, the clip to [min_exp, max_exp], the doubling -- is translated:
 
   gen_clip_po2 (lgr lgf lgrs lgfs : rat -> Z) (floor_mode quad has_mv : bool) (mn mx : Z) (mv xabs : rat) : Z
+  gen_po2_xq (e : Z) (x : rat) : rat          quantized_po2.__call__: the sign arithmetic times 2^e, e the exponent returned for |x|
 
 Link/Po2CallLink.v proves that with the exact oracles (exp_rnd, exp_floor of Quant/Po2.v) and without the quadratic option this is
 clip_po2, the function every C03 theorem is stated on."""
@@ -171,8 +172,38 @@ def translate():
   return out
 
 
+def translate_call():
+  """quantized_po2.__call__: xq = (sign(x) with zero counted positive) * 2^(exponent returned by _clip_power_of_two)"""
+  from translate import qbitsgen
+  from translate.lingen import to_r
+
+  class P2(qbitsgen.QB):
+    def val(self, n):
+      src = ast.unparse(n)
+      if isinstance(n, ast.Call) and ast.unparse(n.func) == "_clip_power_of_two":
+        if ast.unparse(n.args[0]) != "x_abs" or self.env.get("x_abs") != ("r", "(rabs x)"):
+          raise Fail("quantized_po2.__call__: _clip_power_of_two is not applied to |x|")
+        return ("z", "e")
+      if isinstance(n, ast.Call) and ast.unparse(n.func) == "pow" and len(n.args) == 2 and ast.unparse(n.args[0]) == "2.0":
+        a = self.val(n.args[1])
+        if a[0] == "z":
+          return ("r", f"(rpow2 {a[1]})")
+      return super().val(n)
+
+  tree = ast.parse(open(os.path.join(REPO, "qkeras", "quantizers.py")).read())
+  cls = next(n for n in tree.body if isinstance(n, ast.ClassDef) and n.name == "quantized_po2")
+  call = next(f for f in cls.body if isinstance(f, ast.FunctionDef) and f.name == "__call__")
+  it = P2(cls, {}, {"x": ("r", "x")})
+  it.run(call.body)
+  if it.ret != ("done",) or "xq" not in it.env:
+    raise Fail("quantized_po2.__call__ does not reach the straight-through return with xq")
+  if "x + tf.stop_gradient(self.qnoise_factor * (-x + xq))" not in ast.unparse(call):
+    raise Fail("quantized_po2.__call__: the straight-through return is not built on x and xq")
+  return to_r(it.env["xq"])
+
+
 HEADER = ["(* GENERATED by tools/translate/po2callgen.py from qkeras/quantizers.py -- do not edit *)",
-          "From Coq Require Import ZArith Bool.", "From QV Require Import Base.ZQ Base.FL Quant.Po2.", "Open Scope Z_scope.", ""]
+          "From Coq Require Import ZArith Bool.", "From QV Require Import Base.ZQ Base.FL Quant.Po2 Quant.BinTern Quant.BinTernSrc.", "Open Scope Z_scope.", ""]
 SIG = "(lgr lgf lgrs lgfs : rat -> Z) (floor_mode quad has_mv : bool) (mn mx : Z) (mv xabs : rat) : Z"
 
 
@@ -184,12 +215,13 @@ def emit(outdir):
     bl = lambda v: "true" if v else "false"
     arms = [f"  | {bl(f)}, {bl(q)}, {bl(m)} => {t[(f, q, m)]}" for f in (True, False) for q in (True, False) for m in (True, False)]
     lines.append(f"Definition gen_clip_po2 {SIG} :=\n  match floor_mode, quad, has_mv with\n" + "\n".join(arms) + "\n  end.")
+    lines.append(f"Definition gen_po2_xq (e : Z) (x : rat) : rat :=\n  {translate_call()}.")
   except Fail as e:
     ok, why = False, str(e)
   except (OSError, SyntaxError, KeyError, IndexError, AttributeError, StopIteration) as e:
     ok, why = False, f"{type(e).__name__}: {e}"
   if not ok:
-    lines = list(HEADER) + ["(* translation failed: " + why.replace("*)", "* )") + " *)", f"Definition gen_clip_po2 {SIG} := mx + 1."]
+    lines = list(HEADER) + ["(* translation failed: " + why.replace("*)", "* )") + " *)", f"Definition gen_clip_po2 {SIG} := mx + 1.", "Definition gen_po2_xq (e : Z) (x : rat) : rat := (0, 1)."]
   lines.append(f"Definition po2call_translation_ok : bool := {'true' if ok else 'false'}.")
   path = os.path.join(outdir, "Po2CallGen.v")
   with open(path, "w") as f:
